@@ -10,10 +10,22 @@ pub fn rand_instr(rng: &mut Rng) -> Vec<u8> {
     match rng.below(10) {
         0..=4 => vec![],
         5 => rng.bytes(1),
-        6 => rng.bytes(rng.range(1, 8) as usize),
-        7 => rng.bytes(rng.range(1, 300) as usize),
-        8 => rng.bytes(*rng.pick(&[255usize, 256, 257, 1000])),
-        _ => rng.bytes(rng.range(1, 40) as usize),
+        6 => {
+            let n = rng.range(1, 8) as usize;
+            rng.bytes(n)
+        }
+        7 => {
+            let n = rng.range(1, 300) as usize;
+            rng.bytes(n)
+        }
+        8 => {
+            let n = *rng.pick(&[255usize, 256, 257, 1000]);
+            rng.bytes(n)
+        }
+        _ => {
+            let n = rng.range(1, 40) as usize;
+            rng.bytes(n)
+        }
     }
 }
 
